@@ -1,1 +1,332 @@
-fn main() { verif_common::machinery_error("engine not built yet"); }
+//! store_mc — engine for property C13 ("session stores behave like a map with expiry, under
+//! concurrency too"). See /verif/DESIGN.md §C13.
+//!
+//! Part 1: sequential conformance of the in-memory and the SQLite store against a reference map,
+//!         over ALL operation histories up to a depth.
+//! Part 2: every schedule of small concurrent harnesses on the REAL in-memory store under a
+//!         harness-owned deterministic executor (hook H3), checked for linearizability.
+//! Part 3: SQLite at operation granularity (all merges), plus a sampled free-running smoke run.
+mod backend;
+mod conc;
+mod lin;
+mod model;
+mod sched;
+mod seq;
+
+use backend::{Fixtures, Mode, Sq, current_thread_rt};
+use model::{Table, VInfo, ops_from_json};
+use seq::{SeqResult, VSink};
+use serde_json::{Value, json};
+use std::time::{Duration, Instant};
+use verif_common::machinery_error;
+
+fn replay(tbl: &Table, case: &Value) -> i32 {
+    let part = case.get("part").and_then(|p| p.as_str()).unwrap_or("");
+    let still = match part {
+        "seq" => {
+            let hist = ops_from_json(case.get("history").unwrap_or(&Value::Null)).unwrap_or_else(|| machinery_error("replay: malformed history"));
+            let backend = case.get("backend").and_then(|b| b.as_str()).unwrap_or("");
+            let fx = Fixtures::new();
+            if let Some(o) = case.get("origin") {
+                println!("origin: {o}");
+            }
+            let viols = match backend {
+                "mem" => {
+                    println!("backend: in-memory store; every prefix is executed from scratch on a fresh store, then x and y are probed with load");
+                    seq::mem_check_history(&fx, tbl, &hist, true)
+                }
+                "sqlite" => {
+                    let mode = case.get("mode").and_then(|m| m.as_str()).and_then(Mode::from_name).unwrap_or_else(|| machinery_error("replay: malformed mode"));
+                    println!(
+                        "backend: SQLite (in-memory pool), clock mode '{}' ({})",
+                        mode.name(),
+                        match mode {
+                            Mode::Gap => "all operations within one wall-clock second: a TTL-0 record has deadline == unixepoch()",
+                            Mode::Past => "expired rows are aged by 100 s after every TTL-0 write: a TTL-0 record has deadline < unixepoch()",
+                        }
+                    );
+                    let rt = current_thread_rt();
+                    let trace = rt.block_on(async {
+                        let mut sq = Sq::new(1).await;
+                        let mut r = 0;
+                        let t = seq::sq_exec_scratch(&mut sq, &fx, mode, &hist, &mut r).await;
+                        sq.pool.close().await;
+                        t
+                    });
+                    seq::sq_check_trace(tbl, &hist, &trace, true)
+                }
+                _ => machinery_error("replay: unknown backend"),
+            };
+            for v in &viols {
+                println!("VIOLATES: {} [key={}]", v.what, v.key);
+            }
+            if viols.is_empty() {
+                println!("observed outcomes all conform to the reference map");
+            }
+            !viols.is_empty()
+        }
+        "conc" => conc::replay_conc(tbl, case),
+        _ => machinery_error("replay: unknown case kind"),
+    };
+    if still { 1 } else { 0 }
+}
+
+/// Re-execute the stored case of a sequential violation through the standalone path and demand the
+/// same key again (determinism + independence from the snapshot/restore DFS machinery).
+fn confirm(tbl: &Table, fx: &Fixtures, key: &str, case: &Value) {
+    let hist = ops_from_json(case.get("history").unwrap_or(&Value::Null)).unwrap_or_else(|| machinery_error("confirm: malformed history"));
+    let viols: Vec<VInfo> = match case.get("backend").and_then(|b| b.as_str()) {
+        Some("mem") => seq::mem_check_history(fx, tbl, &hist, false),
+        Some("sqlite") => {
+            let mode = case.get("mode").and_then(|m| m.as_str()).and_then(Mode::from_name).unwrap_or_else(|| machinery_error("confirm: malformed mode"));
+            let rt = current_thread_rt();
+            let trace = rt.block_on(async {
+                let mut sq = Sq::new(1).await;
+                let mut r = 0;
+                let t = seq::sq_exec_scratch(&mut sq, fx, mode, &hist, &mut r).await;
+                sq.pool.close().await;
+                t
+            });
+            seq::sq_check_trace(tbl, &hist, &trace, false)
+        }
+        _ => machinery_error("confirm: unknown backend"),
+    };
+    if !viols.iter().any(|v| v.key == key) {
+        machinery_error(&format!(
+            "nondeterministic: violation [{key}] did not reproduce on re-execution of {}",
+            serde_json::to_string(case).unwrap_or_default()
+        ));
+    }
+}
+
+/// Run `run(depth)` for growing depths while the estimated time of the next depth fits the budget.
+fn deepen(
+    name: &str,
+    start: usize,
+    max: usize,
+    t0: Instant,
+    soft_mark_s: f64,
+    hard_slack_s: f64,
+    estimate_next: &dyn Fn(&SeqResult) -> f64,
+    run: &dyn Fn(usize, Instant) -> SeqResult,
+    log: &mut Vec<Value>,
+    extra_sink: &mut VSink,
+) -> SeqResult {
+    let far = Instant::now() + Duration::from_secs(86_400);
+    let mut best = run(start, far);
+    println!("[{name}] depth {} complete: {} histories in {:.1}s", best.depth, best.stats.histories, best.wall_s);
+    log.push(json!({"engine_part": name, "depth": best.depth, "completed": true, "wall_s": best.wall_s, "histories": best.stats.histories}));
+    while best.depth < max {
+        let est = estimate_next(&best);
+        let elapsed = t0.elapsed().as_secs_f64();
+        if elapsed + est > soft_mark_s {
+            println!("[{name}] depth {} not attempted: estimated {:.0}s does not fit the time budget (elapsed {:.0}s, mark {:.0}s)", best.depth + 1, est, elapsed, soft_mark_s);
+            log.push(json!({"engine_part": name, "depth": best.depth + 1, "completed": false, "reason": format!("time cap: estimated {:.0}s", est)}));
+            break;
+        }
+        let hard = t0 + Duration::from_secs_f64(soft_mark_s + hard_slack_s);
+        let r = run(best.depth + 1, hard);
+        if r.completed {
+            println!("[{name}] depth {} complete: {} histories in {:.1}s", r.depth, r.stats.histories, r.wall_s);
+            log.push(json!({"engine_part": name, "depth": r.depth, "completed": true, "wall_s": r.wall_s, "histories": r.stats.histories}));
+            // violations of the shallower run are a subset; keep the deeper run
+            best = r;
+        } else {
+            println!("[{name}] depth {} ABORTED by the time cap after {} histories", r.depth, r.stats.histories);
+            log.push(json!({"engine_part": name, "depth": r.depth, "completed": false, "reason": "hard time cap hit", "histories_before_abort": r.stats.histories}));
+            extra_sink.merge(r.sink);
+            break;
+        }
+    }
+    best
+}
+
+fn main() {
+    let args = verif_common::Args::parse();
+    if args.property != "C13" {
+        machinery_error(&format!("store_mc serves C13 only, got '{}'", args.property));
+    }
+    let tbl = Table::new();
+    if let Some(p) = &args.replay {
+        let case = verif_common::load_replay(p);
+        std::process::exit(replay(&tbl, &case));
+    }
+    let mut rep = verif_common::Reporter::from_args(&args);
+    rep.max_replay_files = 40;
+    let thorough = args.tier.is_thorough();
+    let t0 = Instant::now();
+    let fx = Fixtures::new();
+    let mut depth_log: Vec<Value> = Vec::new();
+    let mut all = VSink::default();
+
+    // ---- Part 2 first (it owns the global YIELD_BEFORE_LOCK switch) --------------------------
+    pavex_session_memory_store::verif::YIELD_BEFORE_LOCK.store(true, std::sync::atomic::Ordering::SeqCst);
+    let st = sched::selftest();
+    println!(
+        "[executor self-test] AB/BA lock toy: {} schedules, {} deadlocks detected, {} completed, {} with a blocked poll; contended-lock toy: {} runs where a blocked task was woken by the unlock and finished",
+        st.schedules, st.deadlocks, st.completed, st.runs_with_blocked_polls, st.woken_after_block
+    );
+    let mut hs = conc::harnesses(thorough);
+    let n_hw = hs.iter().filter(|h| h.name.starts_with("hw")).count();
+    // the seed only rotates the order of the systematic harnesses
+    let mut tail = hs.split_off(n_hw);
+    verif_common::rotate_by_seed(&mut tail, args.seed);
+    hs.extend(tail);
+    let only: Option<Vec<String>> = args.extra("only").map(|s| s.split(',').map(|x| x.to_string()).collect());
+    let on = |part: &str| only.as_ref().map(|o| o.iter().any(|x| x == part)).unwrap_or(true);
+    if only.is_some() {
+        println!("NOTE: --only given: this is a partial (diagnostic) run, the evidence file is not a full C13 check");
+    }
+    let cr = conc::run_conc_mem(&tbl, if on("conc") { &hs } else { &[] });
+    println!(
+        "[part 2: in-memory, all schedules] {} harnesses, {} schedules, {} distinct histories, {} harnesses with >1 outcome, LOCK_CALLS={}, {:.1}s, violations={}",
+        cr.harnesses,
+        cr.schedules,
+        cr.distinct_histories,
+        cr.harnesses_with_multiple_outcomes,
+        cr.lock_calls,
+        cr.wall_s,
+        cr.violations.len()
+    );
+
+    // ---- Part 1: sequential conformance -------------------------------------------------------
+    // time estimates for the next depth (38x more histories)
+    let est_mem = |r: &SeqResult| r.wall_s.max(0.05) * 38.0 * ((r.depth + 4) as f64 / (r.depth + 3) as f64) * 1.1;
+    let est_sq = |r: &SeqResult| {
+        let per_stmt = r.wall_s.max(0.05) / (r.stats.stmts.max(1) as f64);
+        per_stmt * 38f64.powi(r.depth as i32 + 1) * 4.6 * 1.1
+    };
+    let slack = if thorough { 90.0 } else { 8.0 };
+    let (mem_start, mem_max) = if thorough { (4, 6) } else { (4, 4) };
+    let mem = if !on("mem") { SeqResult::skipped("mem") } else { deepen(
+        "part 1: in-memory sequential",
+        mem_start,
+        mem_max,
+        t0,
+        if thorough { 200.0 } else { 20.0 },
+        slack,
+        &est_mem,
+        &|d, hard| seq::run_mem_seq(&tbl, d, args.seed, hard),
+        &mut depth_log,
+        &mut all,
+    ) };
+    let (gap_start, gap_max) = if thorough { (3, 4) } else { (3, 3) };
+    let gap = if !on("gap") { SeqResult::skipped("sqlite/gap") } else { deepen(
+        "part 1: sqlite sequential (gap)",
+        gap_start,
+        gap_max,
+        t0,
+        if thorough { 320.0 } else { 46.0 },
+        slack,
+        &est_sq,
+        &|d, hard| seq::run_sqlite_seq(&tbl, Mode::Gap, d, 3, args.seed, hard),
+        &mut depth_log,
+        &mut all,
+    ) };
+
+    let (past_start, past_max) = if thorough { (3, 5) } else { (3, 4) };
+    let past = if !on("past") { SeqResult::skipped("sqlite/past") } else { deepen(
+        "part 1: sqlite sequential (past)",
+        past_start,
+        past_max,
+        t0,
+        if thorough { 1150.0 } else { 46.0 },
+        slack,
+        &est_sq,
+        &|d, hard| seq::run_sqlite_seq(&tbl, Mode::Past, d, 3, args.seed, hard),
+        &mut depth_log,
+        &mut all,
+    ) };
+    // ---- Part 3 -------------------------------------------------------------------------------
+    let mr = conc::run_sqlite_merges(&tbl, if on("merge") { &hs } else { &[] });
+    println!(
+        "[part 3: sqlite op-granular merges] {} harnesses, {} merged executions (2 clock modes), {:.1}s, violating steps={}",
+        mr.harnesses, mr.merges, mr.wall_s, mr.stats.violating_steps
+    );
+    let smoke = conc::sqlite_smoke(&tbl, if on("smoke") { &hs } else { &[] }, if thorough { 3000 } else { 300 });
+    println!("[part 3: sqlite free-running smoke — SAMPLED, not part of the verdict] {smoke}");
+
+    // ---- collect violations -------------------------------------------------------------------
+    let seq_samples: Vec<Value> = mem.samples.iter().chain(past.samples.iter()).chain(gap.samples.iter()).cloned().collect();
+    let (mem_j, past_j, gap_j) = (mem.to_json(), past.to_json(), gap.to_json());
+    let seq_histories = mem.stats.histories + past.stats.histories + gap.stats.histories;
+    let seq_ops = mem.stats.op_execs + past.stats.op_execs + gap.stats.op_execs;
+    let nontrivial = mem.stats.nontrivial + past.stats.nontrivial + gap.stats.nontrivial;
+    all.merge(mem.sink);
+    all.merge(past.sink);
+    all.merge(gap.sink);
+    all.merge(mr.sink);
+    let mut per_key = serde_json::Map::new();
+    for (key, (v, case, n)) in &all.map {
+        confirm(&tbl, &fx, key, case);
+        per_key.insert(key.clone(), json!(n));
+        rep.violation(key, &format!("{} ({} violating steps with this key)", v.what, n), case.clone());
+    }
+    for (v, case) in &cr.violations {
+        per_key.insert(v.key.clone(), json!(1));
+        rep.violation(&v.key, &v.what, case.clone());
+    }
+
+    let mut samples = seq_samples;
+    samples.extend(cr.samples.iter().cloned());
+    if samples.is_empty() {
+        samples.push(json!({"note": "no sample collected"}));
+    }
+    let states = seq_histories + mr.merges + cr.schedules;
+    let transitions = seq_ops + mr.op_execs + cr.steps;
+    // exhaustive = every target depth of the tier was completed (no time cap hit anywhere)
+    let caps_hit = depth_log.iter().any(|e| e.get("completed").and_then(|c| c.as_bool()) == Some(false));
+    let exhaustive = mem.completed && past.completed && gap.completed && only.is_none() && !caps_hit;
+    let coverage = json!({
+        "states": states,
+        "transitions": transitions,
+        "traces_validated_against_impl": states,
+        "evaluations": states,
+        "distinct_nontrivial": nontrivial + cr.distinct_histories,
+        "exhaustive": exhaustive,
+        "rule": format!(
+            "Alphabet (38 ops): create/update(id,state,ttl) x ids{{x,y}} x states{{s0,s1,s2}} x ttl{{0,1h}}; update_ttl(id,ttl); load(id); delete(id); \
+             change_id(old,new) incl. old==new; delete_expired(None|Some(1)). States: {}. \
+             Part 1: EVERY history of length <= depth (in-memory: depth {}; SQLite 'past' clock mode: depth {}; SQLite 'gap' clock mode: depth {}), each executed against the real store \
+             (in-memory: every history from scratch on a fresh store; SQLite: prefix-sharing DFS with snapshot/restore of the table, cross-checked against from-scratch executions for all histories of length 2 and a quarter of those of length 3), \
+             both ids probed with load after the last op. Oracle: non-deterministic reference map id -> absent|expired|live(state) (model::spec) tracked as the set of compatible model states; \
+             a violation = observed result variant or loaded state not allowed by any compatible model state. A history is non-trivial when its last op returns something else than on the empty store. \
+             Part 2: real InMemorySessionStore under a deterministic single-threaded executor, hook H3 yields before every lock acquisition; ALL schedules (unbounded DFS with replay from scratch, \
+             preceded by preemption-bounded passes 0,1,2 as ordering heuristic) of {} harnesses (every unordered pair of the 7 op kinds in 2-4 instantiations on colliding ids || observer [load x; load y], 6 initial contents{}; plus 3 hand-written 3-task harnesses); \
+             oracle: brute-force linearizability of the call/return history + final loads against the same reference model, deadlock = violation. distinct_nontrivial adds the number of distinct call/return histories. \
+             Part 3: every merge of the tasks' op sequences of the same harnesses executed sequentially on SQLite in both clock modes (each SqliteSessionStore op is exactly one SQL statement).",
+            fx.states_json(),
+            mem_j["depth"], past_j["depth"], gap_j["depth"],
+            cr.harnesses,
+            if thorough { "; thorough adds 3 tasks x 2 ops per pair of kinds and 4 tasks (3 mutators + observer) per triple of distinct kinds" } else { "" },
+        ),
+        "samples": samples,
+        "depth_log": depth_log,
+        "part1_in_memory": mem_j,
+        "part1_sqlite_past": past_j,
+        "part1_sqlite_gap": gap_j,
+        "part2_in_memory_schedules": cr.to_json(),
+        "part2_executor_selftest": {"schedules": st.schedules, "deadlocks_detected": st.deadlocks, "completed": st.completed, "runs_with_blocked_poll": st.runs_with_blocked_polls, "runs_blocked_then_woken_by_unlock": st.woken_after_block},
+        "part3_sqlite_merges": {"harnesses": mr.harnesses, "merged_executions": mr.merges, "op_executions": mr.op_execs, "sql_statements": mr.stats.stmts,
+                                  "violating_steps": mr.stats.violating_steps, "outcome_histogram": mr.stats.hist_json(), "same_second_guard_retries": mr.stats.guard_retries, "wall_s": mr.wall_s},
+        "part3_sqlite_smoke_SAMPLED_not_part_of_verdict": smoke,
+        "violating_steps_per_key": Value::Object(per_key),
+        "caps_hit": caps_hit,
+        "target_depths": {"in_memory": mem_max, "sqlite_gap": gap_max, "sqlite_past": past_max},
+        "partial_run_only": only,
+    });
+    let code = rep.finish(
+        "model_checking",
+        coverage,
+        &[
+            "Timestamp::now() (jiff, wall clock) and SQLite's unixepoch() are not owned by the harness; every TTL is 0 or 1 h so that each staleness test has a clock-independent answer, assuming the wall clock does not jump backwards or by minutes during a run",
+            "SQLite has 1-second deadline granularity: every step / from-scratch history runs within one verified wall-clock second; 'gap' mode adds nothing (TTL 0 => deadline == unixepoch()); 'past' mode ages already-expired rows by 100 s via a harness UPDATE after every TTL-0 write (TTL 0 => deadline < unixepoch()); both are legitimate timings of the same histories",
+            "SQLite DFS: snapshot/restore re-creates the table in the same physical row order with every deadline shifted by the elapsed time (time-shift invariance), cross-checked against from-scratch execution for all histories of length 2 and a quarter of those of length 3",
+            "SQLite concurrency is explored at operation granularity only (each op is one SQL statement; read from sqlite.rs); statement-level preemption inside SQLite/sqlx is not controlled; the multi-thread smoke run is sampled and not part of the verdict",
+            "in-memory concurrency: scheduling points are exactly the lock acquisitions (hook H3) — sound because the store touches shared state only under that lock; tokio's Mutex is trusted",
+            "when an expired record is physically removed is not observable except through the delete_expired count, for which the property only forces an upper bound (only expired records are removed)",
+            "when change_id's old id is dead AND its new id is live both documented errors apply; either is accepted. change_id(a,a) on a live record may return Ok or DuplicateId (no observable change either way)",
+        ],
+    );
+    std::process::exit(code);
+}
